@@ -1,6 +1,7 @@
 import PqV.Spec.Thrift
 import PqV.Spec.Plain
 import PqV.Spec.Typed
+import PqV.Spec.Dremel
 /-
   Spec.File — a Parquet file reader / validator written from the format specification only
   (parquet-format: file layout, metadata IDL, page layouts, encodings).  It is the "independent
@@ -58,30 +59,32 @@ structure Leaf where
   converted : Option Nat
   tsUnit : Nat := 0
   rep : Option Nat := none
+  repDef : Nat := 0         -- definition level reached at the (innermost) REPEATED ancestor, 0 if none
   deriving Repr
 
 /-- depth-first walk of the flattened schema list; returns leaves and the unread rest -/
-def walkSchema : Nat → List SchemaEl → List (List Nat) → Nat → Nat → Nat → List Leaf × List SchemaEl
-  | 0, els, _, _, _, _ => ([], els)
-  | _ + 1, els, _, _, _, 0 => ([], els)
-  | fuel + 1, els, prefix_, d, r, n + 1 =>
+def walkSchema : Nat → List SchemaEl → List (List Nat) → Nat → Nat → Nat → Nat → List Leaf × List SchemaEl
+  | 0, els, _, _, _, _, _ => ([], els)
+  | _ + 1, els, _, _, _, _, 0 => ([], els)
+  | fuel + 1, els, prefix_, d, r, rd, n + 1 =>
     match els with
     | [] => ([], [])
     | e :: rest =>
       let d' := d + (if e.rep = some 1 ∨ e.rep = some 2 then 1 else 0)
       let r' := r + (if e.rep = some 2 then 1 else 0)
+      let rd' := if e.rep = some 2 then d' else rd
       let path := prefix_ ++ [e.name]
       let (mine, rest') :=
         if e.numChildren = 0 then
-          ([{ path, ptype := e.ptype.getD 0, typeLength := e.typeLength, maxDef := d', maxRep := r', converted := e.converted, tsUnit := e.tsUnit, rep := e.rep : Leaf }], rest)
-        else walkSchema fuel rest path d' r' e.numChildren
-      let (sibs, rest'') := walkSchema fuel rest' prefix_ d r n
+          ([{ path, ptype := e.ptype.getD 0, typeLength := e.typeLength, maxDef := d', maxRep := r', converted := e.converted, tsUnit := e.tsUnit, rep := e.rep, repDef := rd' : Leaf }], rest)
+        else walkSchema fuel rest path d' r' rd' e.numChildren
+      let (sibs, rest'') := walkSchema fuel rest' prefix_ d r rd n
       (mine ++ sibs, rest'')
 
 def leavesOf (schema : List SchemaEl) : List Leaf :=
   match schema with
   | [] => []
-  | root :: rest => (walkSchema (2 * schema.length + 2) rest [] 0 0 root.numChildren).1
+  | root :: rest => (walkSchema (2 * schema.length + 2) rest [] 0 0 0 root.numChildren).1
 
 /-! ### pages -/
 structure PageInfo where
@@ -216,11 +219,16 @@ def decodeChunk (file : Array Nat) (payloads : List (Nat × List Nat)) (leaf : L
       let dl := if leaf.maxDef = 0 then List.replicate p.numValues 0 else decodeHybrid (widthFor leaf.maxDef) p.numValues db
       if dl.length ≠ p.numValues ∨ rl.length ≠ p.numValues then throw s!"page at {p.hdrOff}: v2 levels do not decode"
       let nn := (dl.filter (· == leaf.maxDef)).length
+      -- a v2 page holds whole records: it starts one, and num_rows counts the records it starts
+      if leaf.maxRep > 0 ∧ p.numValues > 0 ∧ rl.head? ≠ some 0 then throw s!"page at {p.hdrOff}: a v2 page must start at a record boundary"
+      let nrec := if leaf.maxRep = 0 then p.numValues else (rl.filter (· == 0)).length
+      if p.numRows ≠ some nrec then throw s!"page at {p.hdrOff}: num_rows {p.numRows} but the page starts {nrec} records"
       if p.numNulls ≠ some (p.numValues - nn) then throw s!"page at {p.hdrOff}: num_nulls {p.numNulls} but {p.numValues - nn} levels are below the maximum"
       let some vs := decodeValues leaf.ptype leaf.typeLength p.encoding dict nn vb | throw s!"page at {p.hdrOff}: values (encoding {p.encoding}) do not decode"
       defs := defs ++ dl; reps := reps ++ rl; vals := vals ++ vs; count := count + p.numValues
   if count ≠ cm.numValues then throw s!"num_values {cm.numValues} but pages hold {count}"
   if leaf.maxRep = 0 ∧ count ≠ rgRows then throw s!"pages hold {count} values but the row group has {rgRows} rows"
+  if leaf.maxRep > 0 ∧ (reps.filter (· == 0)).length ≠ rgRows then throw s!"repetition levels start {(reps.filter (· == 0)).length} records but the row group has {rgRows} rows"
   let nulls := (defs.filter (· != leaf.maxDef)).length
   match cm.nullCount with
   | some k => if leaf.maxRep = 0 ∧ k ≠ nulls then throw s!"statistics null_count {k} but {nulls} cells are null"
